@@ -71,7 +71,12 @@ GoodItems == { Call("sub", <<I(0), I(1), I(2)>>), Call("sub", <<I(5), I(4), I(7)
            CallK("tsub", <<Kw("phi", FL(1, 4)), Kw("th", I(1))>>, <<I(2), I(3)>>),
            CallK("tsub", <<Kw("th", FL(1, 2)), Kw("phi", Bin("*", Var("v"), I(3)))>>, <<I(1), I(0)>>),
            Call("outer", <<I(6), I(7)>>), Call("inner", <<I(1), I(0)>>), Call("util", <<I(3), I(2)>>),
-           Stmt("G", TRUE, <<I(1)>>, <<>>, <<I(0)>>, "none"), [t |-> "var", ty |-> "float", x |-> "v", e |-> FL(1, 2)] }
+           Stmt("G", TRUE, <<I(1)>>, <<>>, <<I(0)>>, "none"), [t |-> "var", ty |-> "float", x |-> "v", e |-> FL(1, 2)],
+           \* calls inside a loop body, with keyword values and modes that depend on the loop variable
+           [t |-> "for", ty |-> "int", x |-> "k", hdr |-> [t |-> "range", a |-> 1, b |-> 4, c |-> 0, hasc |-> FALSE],
+              body |-> <<CallK("tsub", <<Kw("phi", Var("k")), Kw("th", Bin("/", Var("k"), I(8)))>>, <<Var("k"), I(0)>>)>>],
+           [t |-> "for", ty |-> "int", x |-> "j", hdr |-> [t |-> "vals", br |-> "sq", xs |-> <<I(5), I(2)>>],
+              body |-> <<Call("sub", <<Var("j"), I(0), I(1)>>), Stmt("Gj", TRUE, <<Var("j")>>, <<>>, <<Var("j")>>, "none")>>] }
 BadCalls == {
            Call("sub", <<I(0), I(1), I(2), I(2)>>), CallK("tsub", <<Kw("phi", I(1)), Kw("th", I(2))>>, <<I(0), I(1), I(1)>>), Call("Common", <<I(0), I(1), I(1)>>),
            Call("sub", <<I(0), I(1)>>), CallK("sub", <<Kw("a", I(1))>>, <<I(0), I(1), I(2)>>), CallK("sub", <<>>, <<I(0), I(1), I(2)>>),
@@ -114,16 +119,18 @@ Inline(s, reg) == [s EXCEPT !.incs = <<>>,
                                                 ELSE <<s.body[i]>>) \o F(i + 1)
                                     IN F(1)]
 Reg0 == Registry(script, W, 3)
-IncludeIsInlining == (Over /\ AllCallsWellFormed(script, Reg0)) =>
-                        LET b == Load(Inline(script, Reg0)) IN
+\* loops are unrolled textually first, so that calls in loop bodies are inlined once per iteration
+Flat == IF CanUnroll(script) THEN Unroll(script) ELSE script
+IncludeIsInlining == (Over /\ CanUnroll(script) /\ AllCallsWellFormed(Flat, Reg0)) =>
+                        LET b == Load(Inline(Flat, Reg0)) IN
                           /\ S.res.k = b.k
                           /\ (S.res.k = "ok" => SameOps(S.res.prog, b.prog) /\ S.res.prog.modes = b.prog.modes)
-IllFormedCallRefused == (Over /\ ~AllCallsWellFormed(script, Reg0)) => S.res.k = "raise"
+IllFormedCallRefused == (Over /\ CanUnroll(script) /\ ~AllCallsWellFormed(Flat, Reg0)) => S.res.k = "raise"
 \* the registry the machine built is the declarative one (names visible, nested includes merged)
 RegistryAgrees == (S.res = None /\ Len(S.st) = 1 /\ Top(S).pc <= Len(Top(S).plan) /\ Instr(S).a \notin {"declarename", "version", "include"})
                     => {Top(S).incs[i].name : i \in 1..Len(Top(S).incs)} = {Reg0[i].name : i \in 1..Len(Reg0)}
 EmitI == Over => PrintT(<<"CASE", ToJson([s |-> script, out |-> S.res,
-                    inl |-> IF AllCallsWellFormed(script, Reg0) THEN Inline(script, Reg0) ELSE [none |-> TRUE]])>>)
+                    inl |-> IF CanUnroll(script) /\ AllCallsWellFormed(Flat, Reg0) THEN Inline(Flat, Reg0) ELSE [none |-> TRUE]])>>)
 EmitFiles == PrintT(<<"FILES", ToJson(Files)>>)
 ASSUME EmitFiles
 =============================================================================
